@@ -143,7 +143,22 @@ def validate_trace(path, module="ThriftTrace", max_rejects=8, timeout=1800):
     """TLC trace validation.  Returns (events_validated, runs_validated, rejections) where each
     rejection = dict(line, event, run_lines).  After a rejection the offending run is cut out and
     the rest is validated again, so one finding does not hide the others."""
-    lines = [l for l in open(path).read().split("\n") if l.strip()]
+    raw = open(path, "rb").read()
+    # the verdict is a function of (recorded events, specification): cached on exactly that
+    import hashlib
+    ck = hashlib.sha256(raw).hexdigest()[:24] + "-" + c.spec_hash(module, "trace")[:16]
+    cpath = os.path.join(c.OUT, "cache", f"traceval-{module}-{ck}.json")
+    if os.path.exists(cpath):
+        j = json.load(open(cpath))
+        return j["events"], j["runs"], j["rejections"], j["crashed"]
+    res4 = _validate_trace(raw.decode("utf-8", "replace"), module, max_rejects, timeout)
+    os.makedirs(os.path.dirname(cpath), exist_ok=True)
+    json.dump({"events": res4[0], "runs": res4[1], "rejections": res4[2], "crashed": res4[3]}, open(cpath, "w"))
+    return res4
+
+
+def _validate_trace(text, module, max_rejects, timeout):
+    lines = [l for l in text.split("\n") if l.strip()]
     runs = split_runs(lines)
     rejections = []
     crashed = [r for r in runs if json.loads(r[0]).get("err")]
